@@ -179,6 +179,8 @@ def main():
     runs = 300 if tier == "quick" else 3000
     violations, seen = [], set()
     ev = nontrivial = 0
+    from hugr.hugr.render import DotRenderer
+    shared = DotRenderer()          # one renderer object drawing every HUGR of the run, each of them twice
     for k in range(runs):
         seed = seed0 * 1000003 + k
         h, info = gen(seed, wild_ok=False)     # the statement is about HUGRs from well-formed builder programs
@@ -186,6 +188,35 @@ def main():
         if info["history"]:
             nontrivial += 1
         why, res = check(h, info["tame"])
+        if why is None:
+            # a drawing depends on the HUGR and the configuration only, not on what the renderer drew before
+            try:
+                again = [shared.render(h).source, shared.render(h).source]
+            except Exception as e:  # noqa: BLE001
+                again = [f"{type(e).__name__}: {e}"]
+            if any(a != res[0] for a in again):
+                why = "a renderer that has drawn other HUGRs before draws this one differently from a fresh renderer"
+                key = "reuse"
+                if key not in seen and len(violations) < 6:
+                    seen.add(key)
+                    script = write_replay_script("C20", f"bounded_reuse_{len(violations)}", f"seeds {seed0 * 1000003}..{seed}: {why}", f"""
+from bounded.hugr_gen import gen
+from hugr.hugr.render import DotRenderer
+shared = DotRenderer()
+bad = 0
+for seed in range({seed0 * 1000003}, {seed} + 1):
+    h, info = gen(seed, wild_ok=False)
+    try:
+        fresh = h.render_dot().source
+    except Exception:
+        continue
+    if shared.render(h).source != fresh or shared.render(h).source != fresh:
+        print("seed", seed, ": the reused renderer's drawing differs from a fresh renderer's")
+        bad += 1
+sys.exit(1 if bad else 0)
+""")
+                    violations.append({"clause": why, "replay": script})
+                continue
         if why is None and k % 3 == 0:
             # other configurations: same structure up to colours / the extension prefix
             ev += 1
